@@ -215,7 +215,16 @@ class Gen:
             out.append("")
             r = rnd.random()
             if r < 0.4:
-                out += self.function("", "fixture")
+                if rnd.random() < 0.12:
+                    # a conditional / try-wrapped definition at module level
+                    head = rnd.choice(["if COND:", "try:", "if sys.version_info >= (3, 8):", "with ctx():"])
+                    out.append(head)
+                    out += self.function("    ", "fixture")
+                    if head == "try:":
+                        out += ["except ImportError:", "    pass"]
+                    self.tags.append("module:wrapped-def")
+                else:
+                    out += self.function("", "fixture")
             elif r < 0.7:
                 out += self.function("", "test")
             elif r < 0.8:
